@@ -15,7 +15,6 @@ import (
 	"runtime"
 	"strings"
 	"sync"
-	"sync/atomic"
 	"time"
 
 	"github.com/enbility/ship-go/api"
@@ -237,7 +236,7 @@ func runScenario(s *scenario, lg *logger) {
 		o := &s.ops[i]
 		pause(o.gapUs)
 		if o.par && i+1 < len(s.ops) {
-			var gate atomic.Bool
+			gate := make(chan struct{})
 			var ready, wg sync.WaitGroup
 			ready.Add(2)
 			wg.Add(2)
@@ -245,20 +244,24 @@ func runScenario(s *scenario, lg *logger) {
 				go func(x *op) {
 					defer wg.Done()
 					ready.Done()
-					for !gate.Load() {
-					}
+					<-gate
 					do(x)
 				}(x)
 			}
 			ready.Wait()
-			gate.Store(true)
+			close(gate)
 			wg.Wait()
-			// the two calls are listed in the order in which they were made (under load the
-			// goroutines may be scheduled far apart: then this is simply their sequence)
-			if s.ops[i+1].call < s.ops[i].call {
-				s.ops[i].call, s.ops[i+1].call = s.ops[i+1].call, s.ops[i].call
-				s.ops[i].ret, s.ops[i+1].ret = s.ops[i+1].ret, s.ops[i].ret
+			// which of the two took effect last is not observable, and under load a goroutine may be
+			// descheduled between its time stamp and its call: both calls (same duration) are listed
+			// with the interval that covers both - the earliest start, the latest return
+			a, b := &s.ops[i], &s.ops[i+1]
+			if b.call < a.call {
+				a.call = b.call
 			}
+			if a.ret > b.ret {
+				b.ret = a.ret
+			}
+			b.call, a.ret = a.call, b.ret
 			i++
 			continue
 		}
